@@ -14,6 +14,9 @@ From V Require Import Proofs.History Proofs.Unique Merkle.Sound Merkle.VerifyFix
 From Coq Require Import ZifyN ZifyNat ZifyBool.
 Open Scope N_scope.
 
+Lemma lenN_cons1 {A} (x : A) l : lenN (x :: l) = 1 + lenN l.
+Proof. unfold lenN. cbn [length]. lia. Qed.
+
 (* ---------- inclusionProofLen without fuel ---------- *)
 Lemma div2_lt_pow y f : y < 2 ^ N.of_nat (S f) -> N.div2 y < 2 ^ N.of_nat f.
 Proof. rewrite Nnat.Nat2N.inj_succ, N.pow_succ_r', N.div2_div. lia. Qed.
@@ -155,7 +158,7 @@ Proof.
       apply (eval_last_inj H H_len t r c1 c2); auto. unfold lenN in *. lia.
     + assert (Lt' : z < w) by lia. rewrite (ilenN_lt _ _ Lt') in Lr.
       destruct r as [|h r]; [unfold lenN in Lr; cbn [length] in Lr; lia|].
-      rewrite lenN_cons in Lr. inversion Fr as [|? ? Lh Fr']; subst.
+      rewrite lenN_cons1 in Lr. inversion Fr as [|? ? Lh Fr']; subst.
       cbn [old_eval] in E. destruct (N.eqb_spec z w); [contradiction|]. cbn [negb] in E. rewrite andb_true_r in E.
       assert (Hd : N.div2 z <= N.div2 w) by (rewrite !N.div2_div; lia).
       rewrite ilenN_eq in Lt.
@@ -164,7 +167,7 @@ Proof.
         apply (IH (N.div2 z) (N.div2 w) r t c1 c2); auto; try lia. apply div2_lt_pow; auto.
       * rewrite <- N.negb_even, Ev in Lt. cbn [negb] in Lt.
         destruct t as [|g t]; [unfold lenN in Lt; cbn [length] in Lt; lia|].
-        rewrite lenN_cons in Lt. inversion Ft as [|? ? Lg Ft']; subst.
+        rewrite lenN_cons1 in Lt. inversion Ft as [|? ? Lg Ft']; subst.
         cbn [eval_last_inclusion] in E.
         destruct (IH (N.div2 z) (N.div2 w) r t (nodeh g c1) (nodeh h c2)) as [E1|C]; auto; try lia.
         { apply div2_lt_pow; auto. } { rewrite !nodeh_len. reflexivity. }
